@@ -119,6 +119,15 @@ func runC10(c *an.Ctx) {
 	if !ok {
 		return
 	}
+	checkServerStartOrder(c, "C10.e")
+	// the Store methods the server answers from are part of what "the server never panics" rests on
+	// when the server is given the module's own Store: they are put under the sweeps that follow every
+	// rule (pointer loads dereferenced under a nil test, conversions, derived contexts)
+	for _, m := range []string{"HasAt", "Head", "Tail", "Get", "GetByHeight", "GetRange", "getRangeByHeight", "getByHeight"} {
+		if f := p.Method("store", "Store", m); f != nil && f.Blocks != nil {
+			c.T(f)
+		}
+	}
 	codeOK, codeNF := pbConst(c, "StatusCode_OK"), pbConst(c, "StatusCode_NOT_FOUND")
 	if codeOK == "" || codeNF == "" {
 		c.Undecided("C10.d", "anchor:StatusCode", "status code constants must resolve", nil, nil, "pb.StatusCode_OK / NOT_FOUND not found")
